@@ -314,6 +314,8 @@ func runChild(st Stage, bin, scratch string, batch int, seed int64, tier, replay
 	return res
 }
 
+var digitsRe = regexp.MustCompile(`[0-9]+(\.[0-9]+)?`)
+
 var fatalRe = regexp.MustCompile(`(?m)^(fatal error: .*|panic: .*|SIGSEGV.*|unexpected fault address.*)$`)
 
 func crashSignature(stderr string) string {
@@ -621,6 +623,8 @@ func runProperty(id string, prop Property, tier string, seed int64, replay strin
 	knownWhat := map[string]string{}
 	nViol := 0
 	var violLines []string
+	groupN := map[string]int{}
+	groupOrder := []string{}
 	for i, v := range viols {
 		if f, ok := openKeys[v.Key]; ok && v.Key != "" {
 			knownSeen[v.Key]++
@@ -630,7 +634,16 @@ func runProperty(id string, prop Property, tier string, seed int64, replay strin
 			continue
 		}
 		nViol++
-		if nViol > 20 {
+		g := digitsRe.ReplaceAllString(v.What, "#")
+		if len(g) > 70 {
+			g = g[:70]
+		}
+		g = fmt.Sprintf("key=%q %s", v.Key, g)
+		if groupN[g] == 0 {
+			groupOrder = append(groupOrder, g)
+		}
+		groupN[g]++
+		if groupN[g] > 3 || len(violLines) >= 40 {
 			continue
 		}
 		wf := map[string]interface{}{"property": id, "stage": v.stage, "batch": v.batch, "seed": seed, "tier": tier,
@@ -639,7 +652,14 @@ func runProperty(id string, prop Property, tier string, seed int64, replay strin
 		p := filepath.Join(verifDir, "replays", fmt.Sprintf("%s-%s-s%d-b%d-%d.json", id, v.stage, seed, v.batch, i))
 		ioutil.WriteFile(p, b, 0644)
 		violLines = append(violLines, fmt.Sprintf("VIOLATION property=%s replay=%s", id, p))
-		fmt.Printf("  violation [%s/%d] key=%q: %s\n", v.stage, v.batch, v.Key, v.What)
+		if groupN[g] == 1 {
+			fmt.Printf("  violation [%s/%d] key=%q: %s\n", v.stage, v.batch, v.Key, v.What)
+		}
+	}
+	for _, g := range groupOrder {
+		if groupN[g] > 1 {
+			fmt.Printf("  (%d violations of the kind: %s)\n", groupN[g], g)
+		}
 	}
 	keys := []string{}
 	for k := range knownSeen {
